@@ -8,6 +8,7 @@ mod chain;
 mod classify;
 mod envelope;
 mod framing;
+mod idl;
 mod jsonser;
 mod notified;
 mod server;
@@ -180,6 +181,34 @@ fn main() {
             }
             let lines = util::log_close();
             util::write_json(&summary, &json!({"cases": stats.cases, "events": lines}));
+        }
+        "idl" => {
+            let mut r = Rng::new(seed ^ 0x1d1);
+            let mode = arg_val(&args, "--mode").unwrap_or_else(|| "parse".into());
+            let asts: Vec<idl::Iface> = arg_val(&args, "--asts")
+                .map(|p| read_lines(&p).into_iter().map(|v| serde_json::from_value(v).expect("ast")).collect())
+                .unwrap_or_default();
+            let num = |name: &str, d: u64| arg_val(&args, name).and_then(|s| s.parse().ok()).unwrap_or(d);
+            if let Some(p) = arg_val(&args, "--dump-scenarios") {
+                std::fs::write(p, "{\"family\":\"idl\"}\n").unwrap();
+            }
+            util::log_open(&out);
+            idl::start_watchdog(out.clone());
+            let mut stats = idl::Stats::new();
+            ev_reset("idl");
+            if let Some(p) = arg_val(&args, "--replay") {
+                for v in read_lines(&p) {
+                    idl::replay(v.get("case").unwrap_or(&v), &mut stats);
+                }
+            } else if mode == "render" {
+                idl::run_render(&mut r, &asts, n, &mut stats);
+            } else {
+                idl::run_parse(&mut r, &asts, n, num("--trunc", 0), num("--soup", 0), &mut stats);
+            }
+            util::ev(json!({"ev":"end","id":"","text":""}));
+            let lines = util::log_close();
+            util::write_json(&summary, &json!({"cases": stats.cases, "accepted": stats.accepted, "by_class": stats.by_class,
+                                               "distinct": stats.distinct.len(), "events": lines}));
         }
         other => {
             eprintln!("unknown subcommand {other:?}");
